@@ -16,6 +16,9 @@ mod ser_oracle;
 mod ser_ws;
 mod suite_ser;
 mod suite_fws;
+mod scope_oracle;
+mod suite_entity;
+mod suite_scope;
 mod suite_tree;
 mod tree;
 
@@ -44,6 +47,7 @@ fn main() {
         "axes" => suite_axes::run(seed, count, tier, &mut sink),
         "ser" => suite_ser::run(seed, count, tier, &mut sink),
         "fws" => suite_fws::run(seed, count, tier, &mut sink),
+        "scope" => suite_scope::run(seed, count, tier, &mut sink),
         _ => {
             eprintln!("unknown suite {}", suite);
             std::process::exit(2);
